@@ -72,7 +72,7 @@ type SyncOp struct {
 	CrashIn string `json:"crash_in,omitempty"`
 }
 
-var syncOfferFaults = []string{"nil", "format", "hash-flip", "hash-short", "chunks-count", "metadata-flip", "metadata-trunc", "wrong-root", "digest-forged", "apphash-other"}
+var syncOfferFaults = []string{"nil", "format", "hash-flip", "hash-short", "chunks-count", "metadata-flip", "metadata-trunc", "wrong-root", "digest-forged", "apphash-other", "chunk-forged", "chunk-forged"}
 var syncChunkFaults = []string{"flip", "truncate", "extend", "empty", "swap", "dup", "badindex"}
 
 // syncKinds lists which properties report which statesync violation kinds; in a run of another
@@ -404,6 +404,21 @@ func (s *Sim) badOffer(sc *syncCtx, f SyncFault) *abcitypes.RequestOfferSnapshot
 		cp.Chunks[i][absInt(f.B)%hash.Size] ^= 0x40
 		sn.Metadata = cbor.Marshal(&cp)
 		rehash()
+	case "chunk-forged":
+		// The peer controls manifest and chunks: a well-formed checkpoint of the right root in which
+		// one chunk was replaced by a well-formed chunk with other contents (an entry dropped, or a
+		// byte of an entry altered) and the digest list was adjusted to match. The offer may be
+		// accepted; the forged chunk must fail its proof verification.
+		i := absInt(f.A) % len(sc.meta.Chunks)
+		forged := forgeChunk(sc.chunks[i], f.B)
+		if forged == nil {
+			return nil
+		}
+		cp := *sc.meta
+		cp.Chunks = append([]hash.Hash{}, sc.meta.Chunks...)
+		cp.Chunks[i] = hash.NewFromBytes(forged)
+		sn.Metadata = cbor.Marshal(&cp)
+		rehash()
 	case "apphash-other":
 		// The light client trusts another hash for that height than the snapshot's root (the peer
 		// offers a snapshot of a fork or of another height).
@@ -412,6 +427,39 @@ func (s *Sim) badOffer(sc *syncCtx, f SyncFault) *abcitypes.RequestOfferSnapshot
 		return nil
 	}
 	return req
+}
+
+// forgeChunk re-encodes an honest chunk with one proof entry dropped or altered (nil = the chunk
+// cannot be forged that way).
+func forgeChunk(honest []byte, sel int) []byte {
+	entries, err := store.DecodeChunk(honest)
+	if err != nil || len(entries) == 0 {
+		return nil
+	}
+	sel = absInt(sel)
+	i := sel % len(entries)
+	out := make([][]byte, 0, len(entries))
+	switch (sel / 7) % 3 {
+	case 0: // drop an entry
+		if len(entries) < 2 {
+			return nil
+		}
+		out = append(append(out, entries[:i]...), entries[i+1:]...)
+	case 1: // alter the last byte of an entry (a leaf's value, or a hash)
+		if len(entries[i]) == 0 {
+			return nil
+		}
+		e := append([]byte{}, entries[i]...)
+		e[len(e)-1] ^= 1
+		out = append(append(append(out, entries[:i]...), e), entries[i+1:]...)
+	default: // duplicate an entry
+		out = append(append(append(out, entries[:i+1]...), entries[i]), entries[i+1:]...)
+	}
+	forged := store.EncodeChunk(out)
+	if bytes.Equal(forged, honest) {
+		return nil
+	}
+	return forged
 }
 
 // corruptChunk applies a chunk-level fault to honest bytes (ok=false: not applicable).
@@ -490,6 +538,15 @@ func (s *Sim) syncRestore(sc *syncCtx, j *Replica, faults bool, imgDir *string) 
 			s.St.Inc("probe.statesync.forged_manifest_accepted")
 			var cp checkpoint.Metadata
 			_ = cbor.Unmarshal(req.Snapshot.Metadata, &cp)
+			if f.Kind == "chunk-forged" {
+				cont, v := s.syncForgedChunk(sc, j, f, &cp)
+				if v != nil || s.Aborted != "" {
+					return v, false
+				}
+				if cont {
+					continue
+				}
+			}
 			for i := range cp.Chunks {
 				if i >= len(sc.meta.Chunks) || cp.Chunks[i] == sc.meta.Chunks[i] {
 					continue
@@ -657,6 +714,65 @@ start:
 		}
 	}
 	return nil, true
+}
+
+// syncForgedChunk plays a peer that controls manifest and chunks: some honest chunks of the
+// accepted forged manifest are restored first, then the forged chunk arrives (its digest matches
+// the manifest, its proof cannot verify). It returns true when the node rejected the snapshot and
+// can go on with the next offer WITHOUT a restart (as CometBFT's syncer does), false when the
+// joiner has to be restarted by the caller.
+func (s *Sim) syncForgedChunk(sc *syncCtx, j *Replica, f SyncFault, cp *checkpoint.Metadata) (bool, *core.Violation) {
+	fi := -1
+	for i := range cp.Chunks {
+		if i < len(sc.meta.Chunks) && cp.Chunks[i] != sc.meta.Chunks[i] {
+			fi = i
+		}
+	}
+	if fi < 0 {
+		return false, nil
+	}
+	forged := forgeChunk(sc.chunks[fi], f.B)
+	if forged == nil {
+		return false, nil
+	}
+	// Some honest chunks first (they are part of the forged manifest too).
+	n := len(cp.Chunks)
+	for k, cnt := 0, absInt(f.A/3)%3; k < n && cnt > 0; k++ {
+		if k == fi {
+			continue
+		}
+		res, v := s.syncApply(sc, j, k, sc.chunks[k], "peer-forger")
+		if v != nil || s.Aborted != "" {
+			return false, v
+		}
+		if res.Result != abcitypes.ResponseApplySnapshotChunk_ACCEPT {
+			return false, s.syncViol("statesync-honest-chunk-refused", fmt.Sprintf("%s: chunk %d, unchanged in the accepted manifest, was answered with %v", sc.label, k, res.Result))
+		}
+		if k == n-1 || (n == 2) {
+			break // never complete the restore here
+		}
+		cnt--
+	}
+	res, v := s.syncApply(sc, j, fi, forged, "peer-forger")
+	if v != nil || s.Aborted != "" {
+		return false, v
+	}
+	s.St.Inc("fault.statesync.forged_chunk_delivered")
+	s.St.Event("sync %s forged chunk %d -> %v", sc.label, fi, res.Result)
+	switch res.Result {
+	case abcitypes.ResponseApplySnapshotChunk_ACCEPT:
+		return false, s.syncViol("statesync-forged-chunk-accepted", fmt.Sprintf("%s: chunk %d of %d, re-encoded with an altered proof (its digest matches the peer's manifest, its contents are not the checkpoint's), was accepted", sc.label, fi, n))
+	case abcitypes.ResponseApplySnapshotChunk_REJECT_SNAPSHOT:
+		s.St.Inc("probe.statesync.forged_chunk_rejected_snapshot")
+		if v := s.syncNothingVisible(sc, j, "after a snapshot was rejected for a chunk with an invalid proof"); v != nil || s.Aborted != "" {
+			return false, v
+		}
+		// The next (honest) offer follows without a restart.
+		return true, nil
+	default:
+		s.St.Inc("probe.statesync.forged_chunk_other_refusal")
+		return false, nil
+	}
 }
 
 // syncApply delivers one chunk.
